@@ -50,6 +50,15 @@ CLAIMS = {
         ),
         design_ref="DESIGN.md §4 C18",
     ),
+    "C19": dict(
+        technique="static analysis: attribute-level taint (def-use closure over the CoordsCollection property family) with the sorting-order indexing as sanitiser; pairing and table rules",
+        text=(
+            "Decides the structural necessary condition of 'trap numbering, equality and hash do not depend on the order coordinates were given': order-dependent attributes reach hash/eq/trap-id/abstract-repr sinks only "
+            "through indexing with _calc_sorting_order(); coordinates and weights are always used in the same (canonical or raw) order; the sort is x-primary over rounded coordinates; all roundings use COORD_PRECISION; "
+            "uniqueness is decided on the same rounded representation that identifies a trap; mappable registers resolve in declared order. Near-ties across the rounding boundary are numeric and not decided."
+        ),
+        design_ref="DESIGN.md §4 C19",
+    ),
     "C04": dict(
         technique="static analysis: multi-way table agreement (abstract interpretation of serializer branches, deserializer branch keys/defaults, JSON-schema definitions, method signatures, operator tables), all extracted from source on every run",
         text=(
